@@ -571,6 +571,38 @@ theorem JI_step {j : JState} {seen off : List Nat} (h : JI j seen off) (e : Ev)
     · refine ⟨h1.nodup, h1.hseen, h1.hoff, ?_⟩
       intro o' ho'; cases ho'
     · exact h1
+  | errR =>
+    refine ⟨rfl, rfl, ?_⟩
+    rw [judge1_errR]
+    have h1 : JI (jErr1 j) seen off := by
+      unfold jErr1
+      cases hc : j.cur with
+      | none => exact h
+      | some c =>
+        simp only
+        obtain ⟨sd, sp, sl⟩ : ((jDisableAlive j c).done.map (·.ob)).Sublist (j.done.map (·.ob)) ∧
+            ((jDisableAlive j c).pend.map (·.ob)).Sublist (j.pend.map (·.ob)) ∧
+            ((jDisableAlive j c).late.map (·.ob)).Sublist (j.late.map (·.ob)) := by
+          unfold jDisableAlive
+          split
+          · exact ⟨List.Sublist.refl _, List.Sublist.refl _, List.Sublist.refl _⟩
+          · exact jDisable_segments j c
+        have hf := jDisableAlive_frame j c
+        have := JI_shrink h sd sp sl (fun o ho => by rw [hf.expect] at ho; exact ho)
+        exact ⟨this.nodup, this.hseen, this.hoff, this.exp⟩
+    unfold jErr
+    split
+    · refine ⟨h1.nodup, h1.hseen, h1.hoff, ?_⟩
+      intro o' ho'; cases ho'
+    · exact h1
+  | moved i d => exact ⟨rfl, rfl, h⟩
+  | movedNone i d => exact ⟨rfl, rfl, h⟩
+  | hookMoved i =>
+    refine ⟨rfl, rfl, ?_⟩
+    simp only [judge1] at hacc ⊢
+    split
+    · exact h
+    · rename_i hc; rw [if_neg hc] at hacc; exact absurd hacc (flagV_bad_ne rfl)
   | topErr o => exact ⟨rfl, rfl, h⟩
   | topDead o =>
     refine ⟨rfl, rfl, ?_⟩
@@ -656,6 +688,17 @@ theorem JI_step {j : JState} {seen off : List Nat} (h : JI j seen off) (e : Ev)
     split
     · rename_i hc; rw [if_pos hc] at hacc; exact absurd hacc (flagV_bad_ne rfl)
     · exact ⟨h.nodup, h.hseen, h.hoff, h.exp⟩
+  | passLimit =>
+    refine ⟨rfl, rfl, ?_⟩
+    simp only [judge1] at hacc ⊢
+    split
+    · rename_i hc; rw [if_pos hc] at hacc; exact absurd hacc (flagV_bad_ne rfl)
+    · exact ⟨h.nodup, h.hseen, h.hoff, h.exp⟩
+  | cgAfter v =>
+    refine ⟨rfl, rfl, ?_⟩
+    cases v with
+    | none => exact h
+    | some o => exact absurd hacc (flagV_bad_ne rfl)
   | junk s => exact absurd hacc (flagV_bad_ne rfl)
 
 theorem advance_bad (j : JState) : (advance j).bad = j.bad := by
@@ -740,6 +783,10 @@ theorem judge1_bad (j : JState) (e : Ev) : (judge1 j e).bad = j.bad ∨ ∃ v, (
   | hookGone i => simp only [judge1]; split <;> first | exact Or.inl rfl | exact Or.inr ⟨_, rfl⟩
   | destGone s t => simp only [judge1]; split <;> first | exact Or.inl rfl | exact Or.inr ⟨_, rfl⟩
   | err o => rw [judge1_err]; exact Or.inl (jErr_bad j)
+  | errR => rw [judge1_errR]; exact Or.inl (jErr_bad j)
+  | moved i d => exact Or.inl rfl
+  | movedNone i d => exact Or.inl rfl
+  | hookMoved i => simp only [judge1]; split <;> first | exact Or.inl rfl | exact Or.inr ⟨_, rfl⟩
   | topErr o => exact Or.inl rfl
   | topDead o => simp only [judge1]; split <;> first | exact Or.inl rfl | exact Or.inr ⟨_, rfl⟩
   | topNoObj o => simp only [judge1]; split <;> first | exact Or.inl rfl | exact Or.inr ⟨_, rfl⟩
@@ -769,6 +816,11 @@ theorem judge1_bad (j : JState) (e : Ev) : (judge1 j e).bad = j.bad ∨ ∃ v, (
   | rp o => exact Or.inl rfl
   | rpNone o => exact Or.inl rfl
   | rpDone o => simp only [judge1]; split <;> first | exact Or.inl rfl | exact Or.inr ⟨_, rfl⟩
+  | passLimit => simp only [judge1]; split <;> first | exact Or.inl rfl | exact Or.inr ⟨_, rfl⟩
+  | cgAfter v =>
+    cases v with
+    | none => exact Or.inl rfl
+    | some o => exact Or.inr ⟨_, rfl⟩
   | junk s => exact Or.inr ⟨_, rfl⟩
 
 theorem foldl_bad_length (tr : List Ev) : ∀ j : JState, j.bad.length ≤ (tr.foldl judge1 j).bad.length := by
@@ -1019,6 +1071,15 @@ theorem quiet_step (j : JState) (e : Ev) (hq : quietExp j.expect = true) (hnt : 
     split
     · rfl
     · rw [jErr1_expect]; exact hq
+  | errR =>
+    rw [judge1_errR]
+    unfold jErr
+    split
+    · rfl
+    · rw [jErr1_expect]; exact hq
+  | moved i d => exact hq
+  | movedNone i d => exact hq
+  | hookMoved i => simp only [judge1]; split <;> exact hq
   | topErr o => exact hq
   | topDead o => simp only [judge1]; split <;> exact hq
   | topNoObj o => simp only [judge1]; split <;> exact hq
@@ -1046,6 +1107,8 @@ theorem quiet_step (j : JState) (e : Ev) (hq : quietExp j.expect = true) (hnt : 
   | rp o => exact hq
   | rpNone o => exact hq
   | rpDone o => simp only [judge1]; split <;> exact hq
+  | passLimit => simp only [judge1]; split <;> exact hq
+  | cgAfter v => cases v <;> exact hq
   | junk s => exact hq
 
 /-- every accepted trace is quiet in the ticks that run without TIMER_FLAG_HEARTBEAT -/
@@ -1102,6 +1165,96 @@ theorem no_beat_while_heart_beats_off (sc : Scripts) (cmds : List Cmd) (hk : Nat
 
 example : quietWhenOff false [.tickOff, .beat 2] = false := by decide
 example : quietWhenOff false [.tickOff, .tickEnd, .tickBegin, .beat 2] = true := by decide
+
+/-! ### intervals of any size, and retuning in place -/
+
+theorem efunSat_min (n : Int) (h1 : 1 ≤ n) : NV.Gen.C11.efunSat n = min n shrtMax := by
+  have hs : shrtMax = 32767 := by decide
+  rw [gen_efunSat_eq]
+  unfold satEfun
+  split
+  · omega
+  · split <;> omega
+
+/-- **interval of any size**: set_heart_beat(n) with ANY LPC integer n ≥ 1 on a live object without heart beat stores
+    min(n, SHRT_MAX) in both short fields - no truncation, no wrap (the repaired code; `Witness.lean` has the values the
+    unrepaired store produced).  With `serveN_period` the object then beats exactly once every min(n, SHRT_MAX) ticks. -/
+theorem interval_stored_any (w : World) (x : Nat) (n : Int) (h1 : 1 ≤ n)
+    (hd : w.dead.contains x = false) (hon : hasOb x w.hbs = false) (hc : w.hbs.length ≤ w.cap) :
+    (setHeartBeat w x (NV.Gen.C11.efunSat n)).hbs =
+      w.hbs ++ [{ ob := x, ticks := min n shrtMax, interval := min n shrtMax }] := by
+  have hs : shrtMax = 32767 := by decide
+  have e : NV.Gen.C11.efunSat n = NV.Gen.C11.efunSat (min n shrtMax) := by
+    rw [efunSat_min n h1, efunSat_min (min n shrtMax) (by omega)]
+    omega
+  rw [e]
+  exact interval_stored w x (min n shrtMax) (by omega) (by omega) hd hon hc
+
+example : (setHeartBeat { cap := 32 } 2 (NV.Gen.C11.efunSat 4294967297)).hbs = [⟨2, 32767, 32767⟩] := by decide
+
+/-- **retuning in place** (the neighbourhood of the independently written change C11-5): set_heart_beat(n), n ≥ 1, on an
+    object that already has a heart beat rewrites its entry where it is - the order of the array, the round cursor and the
+    number of entries still to serve are untouched, so an object that has not been visited yet in the running round is
+    still visited in it; every other entry keeps countdown and interval -/
+theorem retune_keeps_position (w : World) (x : Nat) (n : Int) (h1 : 1 ≤ n)
+    (hd : w.dead.contains x = false) (hon : hasOb x w.hbs = true) :
+    (setHeartBeat w x (NV.Gen.C11.efunSat n)).hbs = retune x (min n shrtMax) w.hbs ∧
+    (setHeartBeat w x (NV.Gen.C11.efunSat n)).hbs.map (·.ob) = w.hbs.map (·.ob) ∧
+    (setHeartBeat w x (NV.Gen.C11.efunSat n)).idx = w.idx ∧ (setHeartBeat w x (NV.Gen.C11.efunSat n)).todo = w.todo := by
+  have hs : shrtMax = 32767 := by decide
+  obtain ⟨i, hi, _⟩ := idxOf_some_of_has hon
+  have h3 : ¬ (min n shrtMax > shrtMax) := by omega
+  have h4 : ¬ (min n shrtMax = 0) := by omega
+  have h5 : ¬ (min n shrtMax < 0) := by omega
+  have hw : wrap16 (min n shrtMax) = min n shrtMax := wrap16_id (by omega) (by omega)
+  have hset : setHeartBeat w x (NV.Gen.C11.efunSat n) = { w with hbs := retune x (min n shrtMax) w.hbs } := by
+    rw [efunSat_min n h1, setHeartBeat_eq_ref]
+    unfold setHeartBeatRef
+    simp only [hd, h3, h4, h5, hon, hi, hw, if_false, if_true, Bool.false_eq_true]
+    rw [set_idxOf _ hi]
+  rw [hset]
+  exact ⟨rfl, retune_obs x _ w.hbs, rfl, rfl⟩
+
+example : (setHeartBeat { hbs := [⟨2, 1, 1⟩, ⟨3, 1, 1⟩, ⟨4, 1, 1⟩], cap := 32, idx := 0, todo := 3 } 4 (NV.Gen.C11.efunSat 3)).hbs =
+    [⟨2, 1, 1⟩, ⟨3, 1, 1⟩, ⟨4, 3, 3⟩] := by decide
+
+/-! ### a fifth trace-level clause: nobody stays behind as command_giver -/
+
+/-- every `cg` observation after a pass of the backend loop says 0 -/
+def cgClean : List Ev → Bool
+  | [] => true
+  | .cgAfter v :: r => v.isNone && cgClean r
+  | _ :: r => cgClean r
+
+theorem accepted_cg_clean : ∀ (tr : List Ev) (j : JState), (tr.foldl judge1 j).bad = j.bad → cgClean tr = true := by
+  intro tr
+  induction tr with
+  | nil => intro _ _; rfl
+  | cons e r ih =>
+    intro j hacc
+    simp only [List.foldl_cons] at hacc
+    have hstep := bad_of_step hacc
+    have hrest := ih (judge1 j e) (by rw [hacc, hstep])
+    cases e with
+    | cgAfter v =>
+      cases v with
+      | none => simpa [cgClean] using hrest
+      | some o => exact absurd hstep (flagV_bad_ne rfl)
+    | _ => simpa [cgClean] using hrest
+
+theorem judge_ok_implies_cg_clean (tr : List Ev) (h : judgeEv tr = []) : cgClean tr = true := by
+  unfold judgeEv at h
+  have hb : (tr.foldl judge1 {}).bad = ({} : JState).bad := by simpa using h
+  exact accepted_cg_clean tr {} hb
+
+/-- **no heart_beat object stays behind as command_giver**: in every run of the model, after every pass of the backend loop
+    - round completed, truncated, abandoned by an error, served right after an abandoned one, or not run at all -
+    command_giver is 0 -/
+theorem no_command_giver_left_behind (sc : Scripts) (cmds : List Cmd) (hk : Nat → List Op := fun _ => []) :
+    cgClean (events sc cmds hk) = true :=
+  judge_ok_implies_cg_clean _ (model_satisfies_spec sc cmds hk)
+
+example : cgClean [.tickBegin, .tickEnd, .cgAfter (some 2)] = false := by decide
 
 -- non-vacuity: the predicates reject what they should
 example : beatsOnce [] [.tickBegin, .beat 2, .beatEnd 2, .beat 2] = false := by decide
